@@ -3,7 +3,7 @@
    machine Model/FitQuantile.v assembled from the loop pieces GENERATED from ExpectileGAM.fit_quantile (Gen/FitQuantile.v). *)
 From Coq Require Import List Reals ZArith Bool PrimFloat.
 From PG Require Import Base.Ops Base.Vec Model.Pirls Model.Expectile Proofs.VecR Proofs.C01 Proofs.C18 Proofs.C18Half
-  Gen.Stats Gen.FitQuantile Model.FitQuantile Proofs.C18Bisect Proofs.C18Float.
+  Gen.Stats Gen.FitQuantile Model.FitQuantile Proofs.C18Bisect Proofs.C18Flocq Proofs.C18Float.
 Import ListNotations.
 Open Scope R_scope.
 
@@ -46,33 +46,78 @@ Theorem C18_half_is_linear_2lam_partial : forall m B S P ob z b,
 Proof. exact half_vs_doubled_lam. Qed.
 Print Assumptions C18_half_is_linear_2lam_partial.
 
-(* Bisection, real-number semantics of today's loop text, for EVERY oracle `ratio` (ratio k = empirical quantile after k
-   refits), every quantile, tol, budget and every starting expectile in (0,1), after any number of passes:
-   (1) 0 <= min < expectile < max <= 1, so no refit is rejected by _validate_params;
+(* Bisection, EXACT real-number semantics of today's loop text (rnd = identity), for EVERY oracle `ratio` (ratio k = empirical
+   quantile after k refits), every quantile, tol, budget and every starting expectile in (0,1), after any number of passes:
+   (1) the expectile is strictly inside (0,1) and strictly inside the bracket, 0 <= min < expectile < max <= 1, so no refit is
+       rejected by _validate_params; the stall exit `if expectile in (min_, max_): break` is never taken;
    (2) a pass that does not break moves the expectile strictly up (staying below max) when ratio < quantile and strictly down
        (staying above min) otherwise, the bracket strictly shrinks and the expectile is its midpoint;
-   (3)-(5) with fuel max_iter the loop has stopped; it made at most max_iter refits, counted by n_iter; no earlier pass saw
+   (3) with fuel max_iter the loop has stopped; it made at most max_iter refits, counted by n_iter; no earlier pass saw
        a ratio within tol; it stopped by `break` iff the current ratio is within tol, else exactly max_iter refits were made. *)
 Theorem C18_bisect_invariant : forall quantile tol max_iter (ratio : nat -> R) e0, 0 < e0 < 1 ->
-  (forall fuel, let s := fq_loop fuel quantile tol max_iter ratio (fq_init e0) in
-                fq_inv s /\ Gen_expectile_out_of_range (q_e s) = false) /\
-  (forall s r, fq_inv s -> Gen_fq_within_tol r quantile tol = false ->
-     let s' := fq_body quantile tol r s in
+  (forall fuel, let s := fq_loop rid fuel quantile tol max_iter ratio (fq_init e0) in
+                0 <= q_min s /\ q_min s < q_e s /\ q_e s < q_max s /\ q_max s <= 1 /\ 0 < q_e s < 1 /\ q_stalled s = false /\
+                Gen_expectile_out_of_range (q_e s) = false) /\
+  (forall s r, fq_inv s -> fq_running max_iter s = true -> Gen_fq_within_tol rid r quantile tol = false ->
+     let s' := fq_body rid quantile tol r s in
      (r < quantile -> q_e s < q_e s' /\ q_e s' < q_max s /\ q_min s' = q_e s /\ q_max s' = q_max s) /\
      (quantile <= r -> q_e s' < q_e s /\ q_min s < q_e s' /\ q_max s' = q_e s /\ q_min s' = q_min s) /\
      (0 < tol -> r <> quantile) /\
-     q_max s' - q_min s' < q_max s - q_min s /\ q_e s' = (q_min s' + q_max s') / 2) /\
-  (let s := fq_loop (Z.to_nat max_iter) quantile tol max_iter ratio (fq_init e0) in
+     q_max s' - q_min s' < q_max s - q_min s /\ q_e s' = (q_max s' + q_min s') / 2 /\ q_refits s' = S (q_refits s)) /\
+  (let s := fq_loop rid (Z.to_nat max_iter) quantile tol max_iter ratio (fq_init e0) in
    fq_running max_iter s = false /\
    (q_refits s <= Z.to_nat max_iter)%nat /\ q_n s = Z.of_nat (q_refits s) /\
-   (forall j, (j < q_refits s)%nat -> Gen_fq_within_tol (ratio j) quantile tol = false) /\
-   ((q_broke s = true /\ Gen_fq_within_tol (ratio (q_refits s)) quantile tol = true) \/
+   (forall j, (j < q_refits s)%nat -> Gen_fq_within_tol rid (ratio j) quantile tol = false) /\
+   ((q_broke s = true /\ Gen_fq_within_tol rid (ratio (q_refits s)) quantile tol = true) \/
     (q_broke s = false /\ q_refits s = Z.to_nat max_iter))).
-Proof. intros quantile tol max_iter ratio e0 He. split; [|split].
-  - intros fuel s. split; [apply fq_loop_inv; exact He|apply fq_inv_in_range; apply fq_loop_inv; exact He].
-  - intros s r Hs Hw. apply fq_body_direction; assumption.
-  - apply fq_exit. Qed.
+Proof. exact bisect_exact. Qed.
 Print Assumptions C18_bisect_invariant.
+
+(* The same loop when every arithmetic result is ROUNDED by a function `rnd` satisfying the IEEE contract (monotone, identity on the
+   format, lands in the format, format closed under doubling, 0 and 1 representable) -- for every oracle, from a representable
+   starting expectile in (0,1):
+   (0) the new expectile of a bracket with representable ends is an end of the bracket or strictly inside it -- never outside;
+   (1) the expectile stays strictly inside (0,1) (never rejected by _validate_params) and, until the stall exit is taken,
+       strictly inside the bracket;
+   (2) a pass that neither breaks nor stalls moves the expectile strictly toward the side indicated by ratio - quantile and strictly
+       shrinks the bracket; a stalled pass changes neither expectile nor counters (nothing is stored or refitted);
+   (3) exit: within tol, or the bracket cannot be halved any further (new value = an end), or exactly max_iter refits.
+   This is where the repair of S11 shows: without the stall exit (0) would let the value 1.0 = max_ be stored. *)
+Theorem C18_bisect_invariant_rounded : forall (rnd : R -> R) (fmt : R -> Prop),
+  (forall x y, x <= y -> rnd x <= rnd y) -> (forall x, fmt x -> rnd x = x) -> (forall x, fmt (rnd x)) ->
+  (forall x, fmt x -> fmt (2 * x)) -> fmt 0 -> fmt 1 ->
+  forall quantile tol max_iter (ratio : nat -> R) e0, 0 < e0 < 1 -> fmt e0 ->
+  (forall mn mx, fmt mn -> fmt mx -> mn <= mx ->
+     let e' := Gen_fq_new_expectile rnd mn mx in (e' = mn \/ e' = mx) \/ (mn < e' < mx)) /\
+  (forall fuel, let s := fq_loop rnd fuel quantile tol max_iter ratio (fq_init e0) in
+                fq_inv s /\ 0 < q_e s < 1 /\ Gen_expectile_out_of_range (q_e s) = false) /\
+  (forall s r, fq_invf fmt s -> fq_running max_iter s = true -> Gen_fq_within_tol rnd r quantile tol = false ->
+     let s' := fq_body rnd quantile tol r s in
+     (q_stalled s' = true -> q_e s' = q_e s /\ q_refits s' = q_refits s /\ q_n s' = q_n s /\
+        Gen_fq_stall (Gen_fq_new_expectile rnd (q_min s') (q_max s')) (q_min s') (q_max s') = true) /\
+     (q_stalled s' = false ->
+        (r < quantile -> q_e s < q_e s' /\ q_e s' < q_max s /\ q_min s' = q_e s /\ q_max s' = q_max s) /\
+        (quantile <= r -> q_e s' < q_e s /\ q_min s < q_e s' /\ q_max s' = q_e s /\ q_min s' = q_min s) /\
+        q_max s' - q_min s' < q_max s - q_min s /\ q_e s' = Gen_fq_new_expectile rnd (q_min s') (q_max s') /\
+        q_refits s' = S (q_refits s)) /\
+     (0 < tol -> r <> quantile)) /\
+  (let s := fq_loop rnd (Z.to_nat max_iter) quantile tol max_iter ratio (fq_init e0) in
+   fq_running max_iter s = false /\
+   (q_refits s <= Z.to_nat max_iter)%nat /\ q_n s = Z.of_nat (q_refits s) /\
+   (forall j, (j < q_refits s)%nat -> Gen_fq_within_tol rnd (ratio j) quantile tol = false) /\
+   ((q_broke s = true /\ q_stalled s = false /\ Gen_fq_within_tol rnd (ratio (q_refits s)) quantile tol = true) \/
+    (q_broke s = false /\ q_stalled s = true /\ Gen_fq_within_tol rnd (ratio (q_refits s)) quantile tol = false /\
+       Gen_fq_stall (Gen_fq_new_expectile rnd (q_min s) (q_max s)) (q_min s) (q_max s) = true) \/
+    (q_broke s = false /\ q_stalled s = false /\ q_refits s = Z.to_nat max_iter))).
+Proof. exact bisect_rounded. Qed.
+Print Assumptions C18_bisect_invariant_rounded.
+
+(* the contract is satisfied by binary64 round-to-nearest-even as formalised by Flocq (FLT, precision 53, emin -1074) *)
+Theorem C18_binary64_rounding_contract :
+  (forall x y, x <= y -> rnd64 x <= rnd64 y) /\ (forall x, fmt64 x -> rnd64 x = x) /\ (forall x, fmt64 (rnd64 x)) /\
+  (forall x, fmt64 x -> fmt64 (2 * x)) /\ fmt64 0 /\ fmt64 1.
+Proof. exact b64_contract. Qed.
+Print Assumptions C18_binary64_rounding_contract.
 
 (* the argument checks reject exactly quantile outside (0,1), tol <= 0, max_iter <= 0 *)
 Theorem C18_bisect_arguments : forall quantile tol max_iter,
@@ -81,14 +126,24 @@ Theorem C18_bisect_arguments : forall quantile tol max_iter,
 Proof. exact fq_args. Qed.
 Print Assumptions C18_bisect_arguments.
 
-(* REFUTED in binary64 (the arithmetic the code runs in): the same loop text over PrimFloat, quantile 0.999, tol 1e-9,
-   budget 100, start 0.5, ratio stuck at 0: after 52 refits the expectile is 1 - 2^-53, the 53rd midpoint rounds to exactly
-   1.0 -- not strictly inside (0,1) -- and the refit's _validate_params raises ValueError with 48 passes of budget unused
-   (S11; replayed on the implementation by harness/props/c18.py) *)
-Theorem C18_bisect_float_refuted :
-  exists (ratio : nat -> float) (quantile tol e0 : float) (max_iter : Z),
-    f_inside e0 = true /\ Gen_fq_bad_quantile_f quantile = false /\ Gen_fq_bad_tol_f tol = false /\ Gen_fq_bad_max_iter max_iter = false /\
-    let s := fqf_loop (Z.to_nat max_iter) quantile tol max_iter ratio (fqf_init e0) in
-    f_inside (f_e s) = false /\ PrimFloat.eqb (f_e s) 1%float = true /\ f_raised s = true /\ f_refits s = 52%nat /\ (f_n s < max_iter)%Z.
-Proof. exact bisect_float_refuted. Qed.
-Print Assumptions C18_bisect_float_refuted.
+(* binary64 as the kernel computes it (PrimFloat, bit-exact with CPython; closed computations).  The former S11 witness -- quantile
+   0.999, tol 1e-9, budget 100, start 0.5, ratio stuck at 0 -- now stops through the stall exit after 52 refits with expectile
+   1 - 2^-53 strictly inside (0,1), no ValueError: the 53rd midpoint rounds to exactly 1.0 = max_ and is neither stored nor fitted.
+   Downward (quantile 0.001, ratio stuck at 1, budget 2000): stall exit after 1073 refits at 2^-1074.  Without the stall test the
+   upward chain stores exactly 1.0 (third part; that was S11).  The link between the PrimFloat machine and the Flocq-rounded
+   real machine of C18_bisect_invariant_rounded is NOT proved (it needs Floats.FloatAxioms); the PrimFloat machine is tied to the
+   implementation by bit-exact replay of recorded fit_quantile traces on every run (harness/props/c18.py). *)
+Theorem C18_bisect_float_saturation_stops :
+  (let s := w_run (Z.to_nat w_max_iter) in
+   f_stalled s = true /\ f_raised s = false /\ f_broke s = false /\ f_refits s = 52%nat /\ f_n s = 52%Z /\
+   PrimFloat.eqb (f_e s) 0x1.fffffffffffffp-1%float = true /\ f_inside (f_e s) = true /\
+   PrimFloat.eqb (Gen_fq_new_expectile_f (f_min s) (f_max s)) 1%float = true /\ PrimFloat.eqb (f_max s) 1%float = true /\
+   forallb f_inside (f_trace s) = true /\ length (f_trace s) = 52%nat) /\
+  (f_stalled d_run = true /\ f_raised d_run = false /\ f_refits d_run = 1073%nat /\
+   PrimFloat.eqb (f_e d_run) 0x0.0000000000001p-1022%float = true /\ f_inside (f_e d_run) = true /\
+   PrimFloat.eqb (Gen_fq_new_expectile_f (f_min d_run) (f_max d_run)) 0%float = true /\
+   forallb f_inside (f_trace d_run) = true) /\
+  (f_inside (up_chain 52 0.5%float) = true /\ PrimFloat.eqb (up_chain 53 0.5%float) 1%float = true /\
+   Gen_expectile_out_of_range_f (up_chain 53 0.5%float) = true).
+Proof. split; [exact float_upward_chain_stops|split; [exact float_downward_chain_stops|exact float_unguarded_midpoint_reaches_one]]. Qed.
+Print Assumptions C18_bisect_float_saturation_stops.
